@@ -73,11 +73,22 @@ func verifC13Projectors() {
 	dsp := NewDataStreamProcessor(0, nil, npre, n)
 	pdat := make([]float64, nb*n)
 	bdat := make([]float64, n*nb)
-	for i := range pdat {
-		pdat[i] = float64(vSymI8("p" + string(rune('a'+i))))
-	}
-	for i := range bdat {
-		bdat[i] = float64(vSymI8("b" + string(rune('a'+i))))
+	if vParam("concretematrices", 0) == 1 {
+		// fixed small-integer matrices: everything is linear in the samples, so that
+		// counterexamples are found (and replay) quickly
+		for i := range pdat {
+			pdat[i] = float64((i*7+3)%5 - 2)
+		}
+		for i := range bdat {
+			bdat[i] = float64((i*5+1)%7 - 3)
+		}
+	} else {
+		for i := range pdat {
+			pdat[i] = float64(vSymI8R("p" + string(rune('a'+i))))
+		}
+		for i := range bdat {
+			bdat[i] = float64(vSymI8R("b" + string(rune('a'+i))))
+		}
 	}
 	P := mat.NewDense(nb, n, pdat)
 	B := mat.NewDense(n, nb, bdat)
@@ -97,38 +108,47 @@ func verifC13Projectors() {
 		return
 	}
 	vCheck(dsp.SetProjectorsBasis(P, B, "model") == nil, "compatible shapes are accepted")
-	rec := &DataRecord{data: make([]RawType, n), presamples: npre, signed: vRange("signed", 0, 1) == 1}
-	for i := range rec.data {
-		rec.data[i] = RawType(vSymU16R("d" + string(rune('a'+i))))
-	}
-	dsp.AnalyzeData([]*DataRecord{rec})
-	vCheck(len(rec.modelCoefs) == nb, "one coefficient per basis vector")
-	coef := make([]float64, nb)
-	for k := 0; k < nb; k++ {
-		for i := 0; i < n; i++ {
-			coef[k] += pdat[k*n+i] * c13Value(rec, i)
-		}
-		if k < len(rec.modelCoefs) {
-			vCheck(vRealEq(rec.modelCoefs[k], coef[k]), "model coefficient k = row k of the projectors x record")
+	// a batch of records analysed in one call, as after a block with several triggers:
+	// every record must get its own values
+	signed := vRange("signed", 0, 1) == 1
+	nrec := vParam("batch", 2)
+	recs := make([]*DataRecord, nrec)
+	for q := range recs {
+		recs[q] = &DataRecord{data: make([]RawType, n), presamples: npre, signed: signed}
+		for i := range recs[q].data {
+			recs[q].data[i] = RawType(vSymU16R("d" + string(rune('0'+q)) + string(rune('a'+i))))
 		}
 	}
-	res := make([]float64, n)
-	mean := 0.0
-	for i := 0; i < n; i++ {
-		m := 0.0
+	dsp.AnalyzeData(recs)
+	for _, rec := range recs {
+		vCheck(len(rec.modelCoefs) == nb, "one coefficient per basis vector")
+		coef := make([]float64, nb)
 		for k := 0; k < nb; k++ {
-			m += bdat[i*nb+k] * coef[k]
+			for i := 0; i < n; i++ {
+				coef[k] += pdat[k*n+i] * c13Value(rec, i)
+			}
+			if k < len(rec.modelCoefs) {
+				vCheck(vRealEq(rec.modelCoefs[k], coef[k]), "model coefficient k = row k of the projectors x record")
+			}
 		}
-		res[i] = c13Value(rec, i) - m
-		mean += res[i]
+		res := make([]float64, n)
+		mean := 0.0
+		for i := 0; i < n; i++ {
+			m := 0.0
+			for k := 0; k < nb; k++ {
+				m += bdat[i*nb+k] * coef[k]
+			}
+			res[i] = c13Value(rec, i) - m
+			mean += res[i]
+		}
+		mean /= float64(n)
+		v := 0.0
+		for i := 0; i < n; i++ {
+			v += (res[i] - mean) * (res[i] - mean)
+		}
+		vCheck(vRealLe(0, rec.residualStdDev), "residual std dev is non-negative")
+		vCheck(vRealEq(rec.residualStdDev*rec.residualStdDev, v/float64(n)), "residual std dev^2 = population variance of record - basis x coefficients")
 	}
-	mean /= float64(n)
-	v := 0.0
-	for i := 0; i < n; i++ {
-		v += (res[i] - mean) * (res[i] - mean)
-	}
-	vCheck(vRealLe(0, rec.residualStdDev), "residual std dev is non-negative")
-	vCheck(vRealEq(rec.residualStdDev*rec.residualStdDev, v/float64(n)), "residual std dev^2 = population variance of record - basis x coefficients")
 	vObserve("n", int64(n))
 	vWitness("c13projectors-end")
 }
